@@ -15,6 +15,7 @@ This is the assume/guarantee form: the guarantee towards each downstream is the 
 combinator sitting there, so pipelines follow by induction (`sound_comp`).
 -/
 import HvPush.Lemmas.Drain
+import HvPush.Lemmas.Driver
 namespace HvPush
 open Prog
 
@@ -622,5 +623,60 @@ theorem collect_sound (k0 : List α) {up : List (Ev α)} {down : List (PEv α)} 
     rcases List.mem_cons.1 he with rfl | he
     · simp
     · exact h3 e he
+
+/-! ## The standard driver `SendPush::poll` (= `SendSink::poll` over `SinkCompat`) -/
+
+/-- For every push `K` over every downstream `N`, every pull script (items and `Pending`
+    placements) and any number of polls: the calls the driver makes on the push honour the
+    contract; no `finalize?` happens before every item of the pull was sent (finalize only after
+    the pull ended); and when the driver reports `Ready`, the push has answered `finalize? true`
+    and has been sent exactly the pull's items, in order. -/
+theorem sendPush_protocol (K : Comb κ α β) (N : MPush σ β) (pull : List (Option α)) (k : κ) (s : σ) (n : Nat) :
+    let o := drive K N (fun _ => false) n ⟨pull, false, k, s⟩
+    ProtoOk o.up ∧
+    (∀ pre b post, o.up = pre ++ Ev.fin b :: post → sends pre = items pull) ∧
+    (o.ready = true → Closed o.up ∧ sends o.up = items pull) := by
+  intro o
+  have h0 : DrvInv pull ([] : List (Ev α)) (⟨pull, false, k, s⟩ : DSt κ σ α) {} :=
+    ⟨rfl, rfl, by simp, by simp, fun pre b post he => by cases pre <;> simp at he⟩
+  obtain ⟨pu, hi, hr⟩ := drive_inv K N n h0
+  simp only [List.nil_append] at hi
+  refine ⟨ProtoOk_iff.2 ⟨pu, hi.run⟩, hi.finAfter, fun hrd => ?_⟩
+  have hc := hr hrd
+  have hcl := (PSt.run_closed hi.run).1 hc
+  have hwf : pu.WF := PSt.run_wf hi.run (by intro h; cases h)
+  have hend : o.st.ended = true := by rw [← hi.started]; exact hwf hc
+  have hp := hi.ended hend
+  have hrest := hi.rest
+  rw [hp] at hrest
+  exact ⟨by simpa using hcl, by simpa using hrest⟩
+
+/-- The driver's polls are one call history of the push (so every `Sound` theorem applies). -/
+theorem sendPush_is_history (K : Comb κ α β) (N : MPush σ β) (pull : List (Option α)) (k : κ) (s : σ) (n : Nat) :
+    let o := drive K N (fun _ => false) n ⟨pull, false, k, s⟩
+    K.Tr k o.up o.down o.st.k := by
+  intro o
+  obtain ⟨cs, h1, h2, h3, _⟩ := drive_isRun K N n ⟨pull, false, k, s⟩
+  have := K.run_tr N k s cs
+  rw [← h1, ← h2, ← h3] at this
+  exact this
+
+/-- End to end: a contract-sound combinator under the standard driver, over any downstream, for
+    every pull script and any number of polls: every downstream port sees a contract-honouring
+    trace, and when the driver reports `Ready` every port was finalized and received its `spec`
+    of the pull's items. -/
+theorem sendPush_end_to_end {K : Comb κ α β} {k0 : κ} {ports : List Nat} {spec : Nat → List α → List β → Prop}
+    (hK : K.Sound k0 ports spec) (N : MPush σ β) (pull : List (Option α)) (s : σ) (n : Nat) :
+    let o := drive K N (fun _ => false) n ⟨pull, false, k0, s⟩
+    (∀ i, ProtoOk (port i o.down)) ∧
+    (o.ready = true → ∀ i ∈ ports, Closed (port i o.down) ∧ spec i (items pull) (sends (port i o.down))) := by
+  intro o
+  obtain ⟨hp, _, hr⟩ := sendPush_protocol K N pull k0 s n
+  obtain ⟨h1, h2⟩ := hK _ _ _ (sendPush_is_history K N pull k0 s n) hp
+  refine ⟨h1, fun hrd i hi => ?_⟩
+  obtain ⟨hc, hs⟩ := hr hrd
+  have := h2 hc i hi
+  rw [hs] at this
+  exact this
 
 end HvPush
